@@ -8,6 +8,7 @@ import (
 	"hash/fnv"
 	"os"
 	"sort"
+	"strconv"
 	"time"
 )
 
@@ -69,6 +70,9 @@ func NewCtx(id, tier string, shard, nshards int, seed int64, budget time.Duratio
 	c := &Ctx{ID: id, Tier: tier, Shard: shard, NShards: nshards, Seed: seed,
 		seen: map[uint64]struct{}{}, start: time.Now(), sampleCap: 6, perSub: map[string]int{}}
 	c.deadline = c.start.Add(budget)
+	if ns, err := strconv.ParseInt(os.Getenv("VCHECK_START"), 10, 64); err == nil && ns > 0 {
+		c.deadline = time.Unix(0, ns).Add(budget) // a restarted shard keeps the deadline of its first attempt
+	}
 	c.Res.Shard = shard
 	c.Res.Exhaustive = true
 	c.Res.Outcomes = map[string]int64{}
